@@ -24,7 +24,7 @@ from ..explore import Concat, Mapped, Product, Res, Sequences
 
 ID = "C04"
 LEVEL = "exploration"
-RULE = ("cases = (position, value): all strings of length<=n over SIGMA4 (55 symbols incl. multi-char atoms) x positions "
+RULE = ("cases = (position, value): all strings of length<=n over SIGMA4 (58 symbols incl. multi-char atoms) x positions "
         "{assign, meta, list1, list3mid, imap, PATTERN-assign, REGEX-imap, block-child, write.changes, write.META., write.mutations}; "
         "plus a pool of ints/floats/bools/None. A case is non-trivial when the value was emitted and re-read; "
         "distinct = distinct (position, emitted value text) pairs.")
@@ -40,8 +40,9 @@ SIGMA4 = [
     "→", "⊕", "⧺", "⇌", "∧", "∨", "@", "+", "~", "|", "&",
     "%", "=", "`", ";", "(", ")", "\x00", "́", "\U0001F600", "é",
     "true", "false", "null", "vs", "//", "::", "->", "<->", "===",
+    "True", "NULL",        # wrong-case spellings of the reserved words (the lexer warns about them; they are plain strings)
 ]
-assert len(SIGMA4) == 56 or len(SIGMA4) == 55, len(SIGMA4)
+assert len(SIGMA4) in (57, 58), len(SIGMA4)
 
 NUMS = [0, 1, -1, 7, -42, 2 ** 63, -(2 ** 63) - 1, 10 ** 30, 0.1, -0.5, 3.14, -0.0, 0.0, 1e16, 1e22, 1e-7, 5e-324,
         1.7976931348623157e308, -1.7976931348623157e308, 123456789.125, 1e15, 1.5e300, True, False, None]
